@@ -557,5 +557,143 @@ pub proof fn thm_refresh_dkg_entry_matches<C: Ciphersuite>(kp: KeyPackage<C>, pk
     GG::<C>::ax_smul_add(eg::<C>(), sum, old_kp.signing_share.0.0);
 }
 
+// ---------------------------------------------------------------------------------------------------
+// distributed variant: "any t refreshed participants can sign"
+
+// the value participant l's refreshing polynomial rs(l) takes at x
+pub open spec fn refresh_term<C: Ciphersuite>(rs: spec_fn(Identifier<C>) -> Seq<Scalar<C>>, x: Scalar<C>) -> spec_fn(Identifier<C>) -> Scalar<C>
+{ |l: Identifier<C>| poly::<AL<C>>(rs(l), x) }
+
+// coefficient-wise sum of the refreshing polynomials of the participants in `parts`
+pub open spec fn psum<C: Ciphersuite>(parts: Seq<Identifier<C>>, rs: spec_fn(Identifier<C>) -> Seq<Scalar<C>>, len: nat) -> Seq<Scalar<C>> decreases parts.len()
+{ if parts.len() == 0 { Seq::new(len, |i: int| s0::<C>()) } else { padd::<C>(psum::<C>(parts.drop_last(), rs, len), rs(parts.last())) } }
+
+//@serves C10
+pub proof fn lemma_poly_zero<C: Ciphersuite>(len: nat, x: Scalar<C>)
+    ensures poly::<AL<C>>(Seq::new(len, |i: int| s0::<C>()), x) == s0::<C>()
+    decreases len
+{
+    if len > 0 {
+        lemma_poly_zero::<C>((len - 1) as nat, x);
+        assert(Seq::new(len, |i: int| s0::<C>()).drop_first() =~= Seq::new((len - 1) as nat, |i: int| s0::<C>()));
+        lemma_mul_zero::<AL<C>>(x); FF::<C>::ax_add_zero(s0::<C>());
+    }
+}
+
+// the sum of zero-constant polynomials of length `len` is a zero-constant polynomial of length `len` whose value is the sum of the values
+//@serves C10
+pub proof fn lemma_psum<C: Ciphersuite>(parts: Seq<Identifier<C>>, rs: spec_fn(Identifier<C>) -> Seq<Scalar<C>>, len: nat, x: Scalar<C>)
+    requires len >= 1, forall|k: int| 0 <= k < parts.len() ==> rs(#[trigger] parts[k]).len() == len && rs(parts[k])[0] == s0::<C>()
+    ensures psum::<C>(parts, rs, len).len() == len, psum::<C>(parts, rs, len)[0] == s0::<C>(),
+        poly::<AL<C>>(psum::<C>(parts, rs, len), x) == id_sum::<C>(parts, refresh_term::<C>(rs, x))
+    decreases parts.len()
+{
+    if parts.len() == 0 {
+        lemma_poly_zero::<C>(len, x);
+    } else {
+        let p1 = parts.drop_last();
+        assert forall|k: int| 0 <= k < p1.len() implies rs(#[trigger] p1[k]).len() == len && rs(p1[k])[0] == s0::<C>() by { assert(p1[k] == parts[k]); }
+        lemma_psum::<C>(p1, rs, len, x);
+        assert(parts.last() == parts[parts.len() - 1]);
+        lemma_poly_add::<C>(psum::<C>(p1, rs, len), rs(parts.last()), x);
+        FF::<C>::ax_add_zero(s0::<C>());
+    }
+}
+
+// C10 (distributed): let `all` be the participants of a refresh run, rs(l) participant l's refreshing polynomial (t coefficients, constant term
+// ZERO) and f the old sharing polynomial.  If every package k holds  (sum over all participants l, in ANY order parts(k), of rs(l)(id_k)) + f(id_k)
+// -- what refresh_dkg_shares computes, see thm_refresh_dkg_new_share_on_polynomials -- then any >= t of the packages interpolate to the OLD
+// secret f(0): the refreshed shares lie on f + sum_l rs(l), a polynomial of the same degree with the same constant term
+//@serves C10
+pub proof fn thm_refresh_dkg_shares_reconstruct<C: Ciphersuite>(kps: Seq<KeyPackage<C>>, f: Seq<Scalar<C>>, all: Set<Identifier<C>>,
+        parts: spec_fn(int) -> Seq<Identifier<C>>, rs: spec_fn(Identifier<C>) -> Seq<Scalar<C>>)
+    requires kp_ids::<C>(kps).no_duplicates(), 1 <= f.len() <= kps.len(), all.finite(),
+        forall|l: Identifier<C>| all.contains(l) ==> (#[trigger] rs(l)).len() == f.len() && rs(l)[0] == s0::<C>(),
+        forall|k: int| 0 <= k < kps.len() ==> (#[trigger] parts(k)).no_duplicates() && parts(k).to_set() == all
+            && kps[k].signing_share.0.0 == sadd::<C>(id_sum::<C>(parts(k), refresh_term::<C>(rs, kps[k].identifier.0.0)), poly::<AL<C>>(f, kps[k].identifier.0.0)),
+    ensures spec_interpolate0::<C>(kps, sorted_seq(kp_ids::<C>(kps).to_set()), kps.len() as nat) == f[0]
+{
+    let canon = sorted_seq(all);
+    lemma_sorted_exists::<C>(all);
+    let len = f.len();
+    let big = psum::<C>(canon, rs, len);
+    assert forall|k: int| 0 <= k < canon.len() implies rs(#[trigger] canon[k]).len() == len && rs(canon[k])[0] == s0::<C>() by {
+        assert(canon.contains(canon[k])); assert(all.contains(canon[k]));
+    }
+    lemma_psum::<C>(canon, rs, len, s0::<C>());
+    assert forall|k: int| 0 <= k < kps.len() implies (#[trigger] kps[k]).signing_share.0.0
+            == sadd::<C>(poly::<AL<C>>(big, kps[k].identifier.0.0), poly::<AL<C>>(f, kps[k].identifier.0.0)) by {
+        let x = kps[k].identifier.0.0;
+        assert(parts(k).no_duplicates() && parts(k).to_set() == all);
+        lemma_id_sum_perm::<C>(parts(k), canon, refresh_term::<C>(rs, x));
+        lemma_psum::<C>(canon, rs, len, x);
+    }
+    thm_refreshed_shares_reconstruct::<C>(kps, f, big);
+}
+
+// the order refresh_dkg_shares adds in:  ((received shares, ascending senders) + own share) + old share  ==  (sum over senders ++ [own]) + old share
+//@serves C10
+pub proof fn lemma_refresh_new_share_as_id_sum<C: Ciphersuite>(s2: crate::keys::dkg::round2::SecretPackage<C>,
+        r2: Map<Identifier<C>, crate::keys::dkg::round2::Package<C>>, old_kp: KeyPackage<C>, g: spec_fn(Identifier<C>) -> Scalar<C>)
+    requires r2.dom().finite(), !r2.contains_key(s2.identifier), g(s2.identifier) == s2.secret_share.0,
+        forall|l: Identifier<C>| r2.contains_key(l) ==> #[trigger] g(l) == r2[l].signing_share.0.0
+    ensures spec_refresh_new_share::<C>(s2, r2, old_kp) == sadd::<C>(id_sum::<C>(sorted_seq(r2.dom()).push(s2.identifier), g), old_kp.signing_share.0.0),
+        sorted_seq(r2.dom()).push(s2.identifier).no_duplicates(), sorted_seq(r2.dom()).push(s2.identifier).to_set() == r2.dom().insert(s2.identifier)
+{
+    let own = s2.identifier;
+    let keys = sorted_seq(r2.dom());
+    lemma_sorted_exists::<C>(r2.dom());
+    let p = keys.push(own);
+    assert(!keys.contains(own)) by { if keys.contains(own) { assert(keys.to_set().contains(own)); } }
+    assert(p.no_duplicates());
+    assert(p.to_set() =~= r2.dom().insert(own)) by {
+        assert forall|x: Identifier<C>| p.to_set().contains(x) <==> r2.dom().insert(own).contains(x) by {
+            if p.contains(x) { let w = choose|w: int| 0 <= w < p.len() && p[w] == x; if w < keys.len() { assert(keys.contains(keys[w])); assert(keys.to_set().contains(x)); } }
+            if x == own { assert(p[keys.len() as int] == x); }
+            if r2.dom().contains(x) { assert(keys.to_set().contains(x)); let w = choose|w: int| 0 <= w < keys.len() && keys[w] == x; assert(p[w] == x); }
+        }
+    }
+    assert(p.drop_last() =~= keys);
+    assert(p.last() == own);
+    let h = |id: Identifier<C>| r2[id].signing_share.0.0;
+    assert forall|k: int| 0 <= k < keys.len() implies g(#[trigger] keys[k]) == h(keys[k]) by { assert(keys.contains(keys[k])); assert(r2.dom().contains(keys[k])); }
+    lemma_id_sum_ext::<C>(keys, g, h);
+    lemma_r2_sum_as_id_sum::<C>(keys, r2, keys.len() as int);
+    assert(keys.take(keys.len() as int) =~= keys);
+}
+
+// C10 (distributed, honest senders): if refresh_dkg_shares succeeds and every sender l published the stripped commitment of a zero-constant
+// polynomial rs(l) (and the caller's own share is rs(own)(own)), then the ACCEPTED shares are exactly the evaluations rs(l)(own) -- the VSS
+// check leaves no other possibility -- so the new signing share is  (sum over senders ++ [own] of rs(l)(own)) + old share,
+// the premise of thm_refresh_dkg_shares_reconstruct
+//@serves C10
+pub proof fn thm_refresh_dkg_new_share_on_polynomials<C: Ciphersuite>(s2: crate::keys::dkg::round2::SecretPackage<C>,
+        r1: Map<Identifier<C>, crate::keys::dkg::round1::Package<C>>, r2: Map<Identifier<C>, crate::keys::dkg::round2::Package<C>>,
+        old_pk: PublicKeyPackage<C>, old_kp: KeyPackage<C>, rs: spec_fn(Identifier<C>) -> Seq<Scalar<C>>)
+    requires r1.dom().finite(), r2.dom().finite(), spec_refresh_dkg_err::<C>(s2, r1, r2, old_pk, old_kp) is None, !r1.contains_key(s2.identifier),
+        forall|l: Identifier<C>| r1.contains_key(l) ==> (#[trigger] rs(l)).len() >= 1 && rs(l)[0] == s0::<C>() && r1[l].commitment.0@ == spec_stripped_commitment::<C>(rs(l)),
+        s2.secret_share.0 == poly::<AL<C>>(rs(s2.identifier), s2.identifier.0.0),
+    ensures spec_refresh_new_share::<C>(s2, r2, old_kp)
+            == sadd::<C>(id_sum::<C>(sorted_seq(r2.dom()).push(s2.identifier), refresh_term::<C>(rs, s2.identifier.0.0)), old_kp.signing_share.0.0),
+        sorted_seq(r2.dom()).push(s2.identifier).no_duplicates(),
+        sorted_seq(r2.dom()).push(s2.identifier).to_set() == r1.dom().insert(s2.identifier),
+{
+    let own = s2.identifier;
+    lemma_part3_same_keys::<C>(r1, r2);
+    let keys = sorted_seq(r2.dom());
+    lemma_sorted_exists::<C>(r2.dom());
+    lemma_refresh_first_share_err_none_all::<C>(keys, r1, r2, own, 0);
+    let g = refresh_term::<C>(rs, own.0.0);
+    assert forall|l: Identifier<C>| r2.contains_key(l) implies #[trigger] g(l) == r2[l].signing_share.0.0 by {
+        assert(keys.to_set().contains(l));
+        let w = choose|w: int| 0 <= w < keys.len() && keys[w] == l;
+        assert(spec_refresh_share_ok::<C>(own, r2[keys[w]].signing_share.0.0, r1[keys[w]].commitment.0@) is Ok);
+        assert(r1.contains_key(l));
+        thm_refresh_share_accepted_iff::<C>(own, r2[l].signing_share.0.0, rs(l));
+        lemma_zero_add::<AL<C>>(r2[l].signing_share.0.0);
+    }
+    lemma_refresh_new_share_as_id_sum::<C>(s2, r2, old_kp, g);
+}
+
 } // verus!
 }
